@@ -70,6 +70,7 @@ def valid_piece(cfgd, tracks):
         return False
     steps = sorted(cfgd["step_sizes"] or [2, 3, 4, 6, 8, 12, 16, 24])
     values = cfgd["note_values"] or [24, 12, 6, 16, 8, 4, 36, 18, 9]
+    ppqn = cfgd.get("ppqn") or 24          # the tokeniser's resolution (None = the library's 24): bar lengths are counted in it
     g = steps[0]
     # grid condition of DESIGN C01: unit g; every step not a multiple of g is dominated
     for s in steps:
@@ -89,9 +90,11 @@ def valid_piece(cfgd, tracks):
     for (t, n, d) in sigs:
         if d not in (1, 2, 4, 8) or not (tlo <= n * 8 // d <= thi) or (n * 8) % d != 0:
             return False
-        if (24 * 4 * n) % d != 0 or (24 * 4 * n // d) % g != 0:
+        if (ppqn * 4 * n) % d != 0 or (ppqn * 4 * n // d) % g != 0:
             return False
-    if not sigs_aligned(sigs):
+    if (ppqn * 4) % g != 0 and (not sigs or min(t for t, _, _ in sigs) > 0):
+        return False          # the default 8/8 bar in force before the first signature must be a whole number of grid units too
+    if not sigs_aligned(sigs, ppqn):
         return False
     # same (track, pitch) notes must not abut in a way that merges them?  abutting is fine (off sorts before on)
     return True
